@@ -21,9 +21,9 @@ CLAIMS = {
     note="bounded: whitespace runs <= 2 (quick) / 3 (thorough), inner padding 0..1 / 0..3, one or two markups per template; two defects found by this check were repaired (tab not whitespace; raw body ending in a trimming pseudo-tag).",
     tech=TECH_A, ref="DESIGN.md 7 C03"),
  "C04": dict(
-    text="TLC enumerates every program up to the node bound over a scoping alphabet that reuses the same names as caller data, assigned/captured variables, loop variables, counters and include arguments, runs each on the LiquidInterp machine checking innermost-binding-wins, precedence, data-untouched, global-written-only-by-assign/capture and clean unwinding in every state, and the harness renders every program on the real parser and compares output or error.",
+    text="TLC enumerates every program up to the node bound over a scoping alphabet that reuses the same names as caller data, assigned/captured variables, loop variables, counters and include arguments, runs each on the LiquidInterp machine checking innermost-binding-wins, precedence, data-untouched, global-written-only-by-assign/capture and clean unwinding in every state, and the harness renders every program on the real parser and compares output or error; the scope-frame hook events of those renders are validated against LiquidFrames (Trace_Frames.tla); MC_Gen adds random deeper programs.",
     note="bounded: <=3 nodes (quick), <=4 nodes and 3 names (thorough); values are short ASCII strings and small integers; the AST-to-source printer of the harness is trusted.",
-    tech=TECH_A, ref="DESIGN.md 7 C04"),
+    tech=TECH_AB, ref="DESIGN.md 7 C04"),
  "C05": dict(
     text="TLC enumerates every (collection kind, length, offset, limit, reversed, cols) loop program and every break/continue placement in two nested loops, checks on the LiquidInterp machine that the implementation-shaped window equals the declarative selection, that the loop object is truthful in every iteration and that a break ends exactly the innermost for loop; the harness renders every program and compares the printed items and loop fields.",
     note="bounded: lengths 0..6, offset/limit 0..8, cols 1..4, nested lengths 1..3 (quick); 0..9 / 0..11 / 1..5 / 1..4 (thorough); non-negative literal attributes.",
@@ -81,9 +81,9 @@ CLAIMS = {
     note="bounded: the stamp and format sets listed in the evidence rule; composite directives with flags/widths and a few case-flag combinations are unspecified; two repaired defects (non-ASCII unknown directive panic, fraction digits padded on the wrong side).",
     tech=TECH_A, ref="DESIGN.md 7 C17"),
  "C18": dict(
-    text="TLC explores every operation sequence of the explicit TLA+ specification LiquidRuntime up to the stated length from all 9 base maps, checks the declarative scope meaning against the delegation-chain form in every state, and every explored sequence is replayed on the real StackFrame/SandboxedStackFrame/GlobalFrame types with all lookups, roots, counters and register ownership compared after every operation.",
+    text="TLC explores every operation sequence of the explicit TLA+ specification LiquidRuntime up to the stated length from all 9 base maps, checks the declarative scope meaning against the delegation-chain form in every state, and every explored sequence is replayed on the real StackFrame/SandboxedStackFrame/GlobalFrame types with all lookups, roots, counters and register ownership compared after every operation. LiquidFrames refines the same runtime to one action per frame visited (tree of frames, delegation chains), TLC ties every completed chain to LiquidRuntime's declarative answer for all trees up to the frame bound, and the cfg(liquid_verif) hook events recorded during the replayed histories (and, thorough, during the repository's own test suite) are validated against it by Trace_Frames.tla.",
     note="bounded: length 3 (quick) / 4 exhaustive replay, 5 state-space, 6 reduced alphabet + random walks (thorough); values are scalars and one-key objects; trusted: TLC, the harness's encoding of observations.",
-    tech=TECH_A, ref="DESIGN.md 7 C18"),
+    tech=TECH_AB, ref="DESIGN.md 7 C18"),
  "C20": dict(
     text="LiquidPartials specifies the lazy partial store with threads, a lock and the cache, with check / read-source / compile / insert as separate steps inside the critical section; TLC checks mutual exclusion, at most one compile per name, schedule-independent results, no poisoning, deadlock freedom and (under weak fairness) that every call returns, over all interleavings. Real threads sharing one Parser and its Templates are then recorded (Call / Miss-inside-the-lock / Return events ordered by the recorder's own mutex) and the trace is validated against the specification with TLC: a second miss of a cached name, two threads inside the source, a result that differs from the sequential result, or a call that never returns has no explanation.",
     note="model: 2-3 threads x 2 calls x 3 names exhaustively; implementation: 150 (quick) / 1500 (thorough) seeded runs of 2..16 threads; schedule coverage on the real code is statistical.",
@@ -108,13 +108,13 @@ def main():
             "level_note": c["note"],
             "technique": c["tech"],
         })
-    repo_hooks = []
+    repo_hooks = ["3836ed4", "a59be9a"]
     m = {
         "version": 1,
         "setup_cmd": "bin/setup",
         "hooks": {
             "guard": "--cfg liquid_verif",
-            "enable": "the harness builds /repo by path with rustflags --cfg liquid_verif (harness/.cargo/config.toml)",
+            "enable": "the harness builds /repo by path with rustflags --cfg liquid_verif (harness/.cargo/config.toml); scope-frame events (crates/core/src/runtime/verif_trace.rs) are recorded only when LIQUID_VERIF_TRACE names a file; the C18 thorough tier also runs the repository's test suite with RUSTFLAGS=--cfg liquid_verif in a scratch target dir under /verif/.work",
             "baseline_off_cmd": "cd /repo && cargo test --workspace --no-fail-fast --offline",
             "source_commits": repo_hooks,
             "add_only": True,
